@@ -104,7 +104,7 @@ func (e *Envelope) verifySignature(sig *dsig.Signature, keys ...*dsig.PublicKey)
 		if err := sig.UnsafePayload(h); err != nil {
 			return errors.New("invalid signature payload")
 		}
-		if !e.Head.Contains(h) {
+		if !e.signedHeaderMatches(h) {
 			return errors.New("header mismatch")
 		}
 		return nil
@@ -114,12 +114,23 @@ func (e *Envelope) verifySignature(sig *dsig.Signature, keys ...*dsig.PublicKey)
 		if err := sig.VerifyPayload(k, h); err != nil {
 			continue
 		}
-		if e.Head.Contains(h) {
+		if e.signedHeaderMatches(h) {
 			return nil
 		}
 		return errors.New("header mismatch")
 	}
 	return errors.New("no key match found")
+}
+
+// signedHeaderMatches tells whether what was signed is the header of this
+// envelope. A signed payload vouches for the document through its digest only:
+// one that names no digest (anything else with the same identifier that the key
+// holder may have signed) vouches for nothing.
+func (e *Envelope) signedHeaderMatches(h *head.Header) bool {
+	if e.Head == nil || h == nil || h.Digest == nil {
+		return false
+	}
+	return e.Head.Contains(h)
 }
 
 // ValidateWithContext ensures that the envelope contains everything it should to be considered valid GoBL.
